@@ -129,3 +129,49 @@ pub fn sorted_by_value(m: &HashMap<String, u32>) -> Vec<(&String, &u32)> {
     v.sort_by_key(|(_, val)| **val); // flagged: ties keep hash order
     v
 }
+
+// ---- C05.6 controls: scratch state shared between alternatives of a backtracking search ----
+pub fn backtrack_shared(base: &mut Vec<u32>, depth: u32) -> bool {
+    if depth == 0 {
+        return base.iter().sum::<u32>() == 7;
+    }
+    let mut s = base.clone();
+    for i in 0..base.len() {
+        s[i] = depth;
+        if backtrack_shared(&mut s, depth - 1) {
+            return true;
+        }
+    }
+    false
+}
+
+pub fn backtrack_fresh(base: &mut Vec<u32>, depth: u32) -> bool {
+    if depth == 0 {
+        return base.iter().sum::<u32>() == 7;
+    }
+    for i in 0..base.len() {
+        let mut s = base.clone();
+        s[i] = depth;
+        if backtrack_fresh(&mut s, depth - 1) {
+            return true;
+        }
+    }
+    false
+}
+
+pub fn backtrack_restored(base: &mut Vec<u32>, depth: u32) -> bool {
+    if depth == 0 {
+        return base.iter().sum::<u32>() == 7;
+    }
+    let mut s = base.clone();
+    for i in 0..base.len() {
+        let old = s[i];
+        s[i] = depth;
+        let r = backtrack_restored(&mut s, depth - 1);
+        s[i] = old;
+        if r {
+            return true;
+        }
+    }
+    false
+}
